@@ -114,6 +114,18 @@ CHECKS = {
         'without a reference model yet: gbmv sbmv hbmv syr2 her2 symm hemm herk syr2k her2k trsm (their argument logic is covered by C19). '
         'Known finding: k=0 skips leading-dimension checks.',
    technique='Lean 4 reference semantics + frame proofs + exact differential comparison through the source-generated argument prefix'),
+ 'C16': dict(
+   category='proof',
+   text='Lean theorems about a model of compressed-column storage (entries in storage order, insertion with accumulation): construction '
+        'from any triplet list is valid and sums duplicates; addition and transposition preserve validity and equal the dense operation '
+        'on the dense images; scalar multiplication keeps the pattern; the colptr/rowind/values arrays of every valid matrix satisfy the '
+        'structural conditions (start 0, nondecreasing, ends at nnz, rows strictly increasing per column). The model is tied to sparse.c '
+        'by comparing A.CCS after every operation of generated op sequences; every result is also compared with the dense operation on '
+        'dense copies (incl. gemv, syrk, syrk(partial=True)).',
+   design_ref='DESIGN.md 5 C16',
+   note='Trusted: Lean kernel, hand-written model, harness. Not proved (correspondence and dense oracle only): sparse*sparse product, indexed '
+        'assignment, slicing, V assignment, size change, complex matrices, gemm/symv with sparse operands.',
+   technique='Lean 4 proof (invariant + refinement to the dense image) over a hand-written model + op-sequence correspondence'),
 }
 REASONS = {}
 def main():
